@@ -98,6 +98,7 @@ func runC09(rt *rapid.T, st *stats.Collector) {
 	}
 	errCallback := errors.New("input callback failed")
 	round := 0
+	inPlace := 0
 	overwriteSeen, resetSeen := false, false
 	var expectErr bool
 	// Pre-compute what each round does to the model (the callback replays it on the columns).
@@ -176,8 +177,30 @@ func runC09(rt *rapid.T, st *stats.Collector) {
 					c.col.Append(v)
 				}
 			}
-		case "reset-append", "overwrite":
+		case "reset-append":
 			for i, c := range cols {
+				c.col.Column().Reset()
+				c.col.AppendBulk(p.rd.rows[i])
+			}
+		case "overwrite":
+			// A direct write into the column's own memory where its representation allows it
+			// (no Reset, so caches of Preparable columns see no signal); otherwise Reset + re-append,
+			// which rewrites the same backing memory.
+			for i, c := range cols {
+				ow, can := c.col.(gen.Overwriter)
+				done := can
+				if can {
+					for r, v := range p.rd.rows[i] {
+						if !ow.Overwrite(r, v) {
+							done = false
+							break
+						}
+					}
+				}
+				if done {
+					inPlace++
+					continue
+				}
 				c.col.Column().Reset()
 				c.col.AppendBulk(p.rd.rows[i])
 			}
@@ -273,6 +296,9 @@ func runC09(rt *rapid.T, st *stats.Collector) {
 	}
 	if expectErr {
 		st.Label("callback-error")
+	}
+	if inPlace > 0 {
+		st.Label("true-in-place-overwrite")
 	}
 	if initial == 0 {
 		st.Label("initial-rows=0")
